@@ -51,6 +51,12 @@ type HistOpts struct {
 func GenHistory(r *Rng, o HistOpts) *WriterSpec {
 	w := &WriterSpec{}
 	w.Shape = o.Shapes[r.Intn(len(o.Shapes))]
+	if w.Shape == "wide" && len(o.Shapes) > 1 && r.Chance(3, 4) {
+		// 70 columns cost several times an ordinary shape: a quarter of its uniform share
+		for w.Shape == "wide" {
+			w.Shape = o.Shapes[r.Intn(len(o.Shapes))]
+		}
+	}
 	w.Codec = Codecs[r.Pick(2, 2, 1)] // gzip costs ~0.5 ms per page (flate state allocation)
 	w.Page = r.Range(o.PageMin, o.PageMax)
 	if o.BigPagePct > 0 && r.Intn(100) < o.BigPagePct {
